@@ -122,7 +122,7 @@ def check(ctx):
     ]
     ctx.rule("R1", "GC candidates are unlocked and os.remove is applied only to the selector's result", floor=5)
     ctx.rule("R2", "each per-unit selector returns only files[:k], files or [] of the oldest-first list; files() sorts ascending", floor=6)
-    ctx.rule("R3", "no slice bound `-n` is evaluated unless n > 0 is established (x[:-0] == [] trap)", floor=2)
+    ctx.rule("R3", "no slice bound `-n` is evaluated unless n > 0 is established (x[:-0] == [] trap)", floor=1)
     ctx.rule("R4", "removal is control-dependent on `force or size_over < hsize`", floor=1)
 
     mod = ctx.repo.module(JSON)
@@ -143,16 +143,12 @@ def check(ctx):
         ok = False
         why = "argument is not a loop variable over the selector result"
         if isinstance(arg, ast.Name):
-            ds = defs.get(arg.id, [])
-            if len(ds) == 1 and ds[0].kind in ("unpack", "for") and isinstance(ds[0].stmt, ast.For):
-                it = df.resolve_copy(defs, ds[0].stmt.iter)
-                src = ds[0].stmt.iter
-                if isinstance(src, ast.Name):
-                    sd = defs.get(src.id, [])
-                    if len(sd) == 1 and sd[0].kind == "unpack" and sd[0].index == 1 and isinstance(sd[0].value, ast.Call):
-                        sel_calls.append(sd[0].value)
-                        ok = True
-                del it
+            src = element_source(run, arg.id, defs)
+            if isinstance(src, ast.Name):
+                sd = defs.get(src.id, [])
+                if len(sd) == 1 and sd[0].kind == "unpack" and sd[0].index == 1 and isinstance(sd[0].value, ast.Call):
+                    sel_calls.append(sd[0].value)
+                    ok = True
         ctx.ob("R1", st_run, f"{short(c)} removes an element of the selector's result list", ok, key="run|remove-arg", detail=None if ok else why, where=loc(c))
     # ---- R1b: the selector is one of the four, looked up from the unit table, and fed files(only_unlocked=True)
     table = None
@@ -260,7 +256,7 @@ def check(ctx):
 
     # ---- R2 selectors
     for s in SELECTORS:
-        fn = mod.func(s)
+        fn = flat(ctx, mod.func(s), depth=2)
         params = [a.arg for a in fn.args.args]
         if len(params) != 2:
             raise AnalysisError(f"{JSON}:{s}: expected (hsize, files) parameters")
@@ -317,36 +313,28 @@ def check(ctx):
             )
 
     # ---- R4 refuse unless forced
+    # decided on the guards that dominate the removal, by three-valued evaluation under the assignment
+    # "not forced AND NOT (discarded < limit)": some guard must then be violated, i.e. the removal is unreachable
+    # in exactly the situation the contract refuses — whatever the shape (nested if, early return, De Morgan)
     for c in removes:
-        facts = []
+        guards = []
         for n in node_in(cfg, stmt_of(c)):
-            facts = cfg.guards(n)
-        ok = False
-        for test, pol in facts:
-            if not pol:
-                continue
-            ds = disjuncts(test)
-            if len(ds) != 2:
-                continue
-            force = [d for d in ds if unparse(d) == "self.force_gc"]
-            cmp = [d for d in ds if isinstance(d, ast.Compare) and len(d.ops) == 1]
-            if not force or not cmp:
-                continue
-            cm = cmp[0]
-            l, op, r = cm.left, cm.ops[0], cm.comparators[0]
-            if isinstance(op, (ast.Gt, ast.GtE)):
-                l, r, op = r, l, ast.Lt() if isinstance(op, ast.Gt) else ast.LtE()
-            if not isinstance(op, (ast.Lt, ast.LtE)):
-                continue
-            # left = amount discarded (selector result [0]); right = limit (hsize)
-            ld = defs.get(unparse(l), [])
-            rd = defs.get(unparse(r), [])
-            l_ok = len(ld) == 1 and ld[0].kind == "unpack" and ld[0].index == 0 and ld[0].value in sel_calls
-            r_ok = bool(rd) and all(d.kind == "unpack" and d.index == 0 for d in rd) and any(
-                unparse(r) == unparse(sc.args[0]) for sc in sel_calls if sc.args
-            )
-            ok = l_ok and r_ok
-        ctx.ob("R4", st_run, f"{short(c)} is control-dependent on `self.force_gc or size_over < hsize`", ok, key="run|refuse-unless-forced", where=loc(c), detail="guards: " + "; ".join(("" if p else "not ") + short(t, 60) for t, p in facts))
+            guards = cfg.guards(n)
+        # the comparison atom: discarded amount (selector result [0]) < limit (the selector's first argument)
+        amt = {n_ for n_, ds_ in defs.items() if len(ds_) == 1 and ds_[0].kind == "unpack" and ds_[0].index == 0 and any(ds_[0].value is sc for sc in sel_calls)}
+        lim = {unparse(sc.args[0]) for sc in sel_calls if sc.args}
+
+        def atoms(e):
+            if unparse(e) == "self.force_gc":
+                return False
+            ca = cmp_atom(e)
+            if ca and ca[0] in amt and ca[1] in lim:
+                return True if ca[2] else False  # `amt < lim` is False under the assignment; its negation True
+            return None
+
+        blocked = any(ev3(t, atoms) is (not pol) for t, pol in guards)
+        mentions = any("self.force_gc" in unparse(t) for t, _ in guards)
+        ctx.ob("R4", st_run, f"{short(c)} is unreachable when neither forced nor `discarded < limit` (control-dependent on `self.force_gc or size_over < hsize`)", blocked and mentions, key="run|refuse-unless-forced", where=loc(c), detail="guards: " + "; ".join(("" if p else "not ") + short(t, 60) for t, p in guards))
 
 
 META = {
